@@ -33,6 +33,7 @@ META = {
 
 ALPHA = ['close', 'same', 'edge', 'far', 'one', 'nan', 'pinf', 'raise', 'warn']
 ERRORS = ['raise', 'skip', 'ignore', 'replace', 'bogus']
+CATS = list(sc.WARNING_CATEGORIES)
 
 
 def base_case(n, nE, check, t, opts, outcomes_by_pos, rng=None, before=None, after=None, vals=None, status=None,
@@ -71,7 +72,14 @@ def core_cases(L):
                     for catch in (True, False):
                         i += 1
                         o = mkopts(m_, M, 0, 'raise' if i % 2 else 'ignore', errors, catch)
-                        yield base_case(n, nE, check, t, o, {1: list(seq)})
+                        c = base_case(n, nE, check, t, o, {1: list(seq)})
+                        # implementation-side variations the model cannot see (deterministic in i)
+                        c['write'] = 'rebind' if i % 3 == 0 else 'inplace'
+                        c['span_kind'] = sc.SPAN_KINDS[i % len(sc.SPAN_KINDS)]
+                        for a in c['script'][1]:
+                            if a['k'] == 'warn':
+                                a['cat'] = CATS[(i // 3) % len(CATS)]
+                        yield c
 
 
 def random_case(rng):
@@ -80,13 +88,15 @@ def random_case(rng):
     check = sorted(rng.sample(range(nE), rng.choice([nE, nE, max(nE - 1, 0), 0])))
     t = rng.randrange(-n, n)
     L = rng.choice([0, 1, 2, 3, 4, 5])
-    alpha = rng.choice([ALPHA, ['close', 'same', 'edge', 'far', 'one'], ['far', 'close', 'same', 'keep']])
+    alpha = rng.choice([ALPHA, ['close', 'same', 'edge', 'far', 'one'], ['far', 'close', 'same', 'keep'],
+                        ['huge', 'huge', 'far', 'same', 'close']])
     seq = [rng.choice(alpha) for _ in range(L)]
     M = rng.choice([-1, 0, 1, 2, 3, L, L + 1, L + 2])
     m_ = rng.choice([-2, 0, 0, 1, 2, M, M + 1])
     off = rng.choice([0, 0, 0, -1, 1, -2, 2, n, -n])
     o = mkopts(m_, M, off, rng.choice(['raise', 'ignore', 'other']), rng.choice(ERRORS), rng.choice([True, False]))
-    vals = [[float(rng.choice([0.0, 1.0, -2.5, 3.25, 100.0, i + p])) for p in range(n)] for i in range(nE)]
+    pool = [0.0, 1.0, -2.5, 3.25, 100.0] + ([1.0e308, 1.0e308, -1.0e308] if rng.random() < 0.15 else [])
+    vals = [[float(rng.choice(pool + [i + p])) for p in range(n)] for i in range(nE)]
     if rng.random() < 0.15:  # pre-existing non-finite value somewhere
         vals[rng.randrange(nE)][rng.randrange(n)] = rng.choice([float('nan'), float('inf'), float('-inf')])
     status = ''.join(rng.choice('-.FES') for _ in range(n)) if rng.random() < 0.5 else '-' * n
@@ -102,8 +112,10 @@ def random_case(rng):
         acts[pos] = {'k': kind, 'v': [bits(rng.choice([0.0, 5.0, 7.5])) for _ in range(nE)], 'm': rng.randrange(nE + 1)}
         return acts
     tol = rng.choice([sc.TOL, sc.TOL, 1e-10, 1.0, 0.0])
-    return base_case(n, nE, check, t, o, {pos: seq}, before=hook(), after=hook(), vals=vals, status=status,
+    case = base_case(n, nE, check, t, o, {pos: seq}, before=hook(), after=hook(), vals=vals, status=status,
                      iters=iters, tol=tol)
+    case['span_kind'] = rng.choice(sc.SPAN_KINDS)     # used by the solve_period stream only
+    return sc.vary_implementation_side(case, rng)
 
 
 # ---- natural systems built by the parser -----------------------------------------------------------------------
